@@ -228,7 +228,7 @@ def synth_samples(ctx, fmt):
                     c10.Layout(moov_first=False, wide=("moov", "udta"), udta="after", meta=False, ilst="none"),
                     c10.Layout(ilst_first=True, free=("meta-far",)), c10.Layout(zero_last=True, moov_first=False)]
             for i, lay in enumerate(lays):
-                out.append(("synth:mp4-layout-%d" % i, c10.build(lay)[0]))
+                out.append(("synth:mp4-layout-%d%s" % (i, "-wide" if getattr(lay, "wide", None) else ""), c10.build(lay)[0]))
         except Exception as e:      # the C10 builder is not ours: its absence must not break C02
             ctx.notes.append("MP4 synthesised layouts unavailable: %s" % type(e).__name__)
     return out
